@@ -3,15 +3,8 @@
    sorted by key.  Error message texts are not modelled (the property projects them away): every
    message error carries the empty text, and the harness never lets a message become data. *)
 From Coq Require Import List NArith ZArith Bool.
-From Verif Require Import c01vm2.Syntax c01vm2.Code.
+From Verif Require Import common.Sexp c01vm2.Syntax c01vm2.Code.
 Import ListNotations.
-
-Fixpoint str_cmp (a b : list N) : comparison :=
-  match a, b with
-  | [], [] => Eq | [], _ => Lt | _, [] => Gt
-  | x :: ra, y :: rb => match N.compare x y with Eq => str_cmp ra rb | c => c end
-  end.
-Definition str_eqb (a b : list N) : bool := match str_cmp a b with Eq => true | _ => false end.
 
 Definition type_ix (v : jv) : nat :=
   match v with
@@ -52,19 +45,32 @@ Fixpoint obj_get (k : list N) (l : list (list N * jv)) : jv :=
   | [] => VNull
   | (k', v) :: r => if str_eqb k k' then v else obj_get k r
   end.
-Fixpoint obj_put (k : list N) (v : jv) (l : list (list N * jv)) : list (list N * jv) :=
-  match l with
-  | [] => [(k, v)]
-  | (k', v') :: r => match str_cmp k k' with
-                     | Lt => (k, v) :: l
-                     | Eq => (k, v) :: r
-                     | Gt => (k', v') :: obj_put k v r
-                     end
-  end.
 Definition obj_norm (l : list (list N * jv)) : list (list N * jv) :=
   fold_left (fun acc kv => obj_put (fst kv) (snd kv) acc) l [].
 
 Definition merr : err0 := EMsg [].
+
+(* funcSlice on arrays and (ASCII) strings: clampIndex, start from 0 when null, end from the length when null *)
+Definition clamp (i mn mx : Z) : Z :=
+  let i' := if (i <? 0)%Z then (i + mx)%Z else i in
+  if (i' <? mn)%Z then mn else if (i' <? mx)%Z then i' else mx.
+Definition c_slice_list {A} (l : list A) (e s : jv) : list A + err0 :=
+  let n := Z.of_nat (length l) in
+  match (match s with VNull => inl 0%Z | VNum i => inl (clamp i 0 n) | _ => inr merr end) with
+  | inl st =>
+      match (match e with VNull => inl n | VNum i => inl (clamp i st n) | _ => inr merr end) with
+      | inl en => inl (firstn (Z.to_nat (en - st)) (skipn (Z.to_nat st) l))
+      | inr x => inr x
+      end
+  | inr x => inr x
+  end.
+Definition c_slice (v e s : jv) : jv + err0 :=
+  match v with
+  | VNull => inl VNull
+  | VArr l => match c_slice_list l e s with inl r => inl (VArr r) | inr x => inr x end
+  | VStr l => match c_slice_list l e s with inl r => inl (VStr r) | inr x => inr x end
+  | _ => inr merr
+  end.
 
 Definition c_index (v k : jv) : jv + err0 :=
   match k with
@@ -83,6 +89,28 @@ Definition c_index (v k : jv) : jv + err0 :=
                   let j := if (i <? 0)%Z then (i + n)%Z else i in
                   if ((0 <=? j) && (j <? n))%Z then inl (VStr [nth (Z.to_nat j) s 0%N]) else inl VNull
               | _ => inr merr end
+  | VArr xs =>
+      (* funcIndex2 with an array key: the positions at which xs occurs in v (indices) *)
+      match v with
+      | VNull => inl VNull
+      | VArr vs =>
+          inl (VArr (match xs with
+                     | [] => []
+                     | _ => if Nat.ltb (length vs) (length xs) then []
+                            else map (fun i => VNum (Z.of_nat i))
+                                   (filter (fun i => match jcmp (VArr (firstn (length xs) (skipn i vs))) (VArr xs) with Eq => true | _ => false end)
+                                      (seq 0 (S (length vs - length xs))))
+                     end))
+      | _ => inr merr
+      end
+  | VObj ks =>
+      (* funcIndex2 with a map key: a slice {"start": s, "end": e} *)
+      match v with
+      | VNull => inl VNull
+      | _ => if obj_has [115; 116; 97; 114; 116]%N ks && obj_has [101; 110; 100]%N ks
+             then c_slice v (obj_get [101; 110; 100]%N ks) (obj_get [115; 116; 97; 114; 116]%N ks)
+             else inr merr
+      end
   | _ => inr merr
   end.
 
@@ -93,9 +121,34 @@ Definition c_iter (v : jv) : list jv + err0 :=
   | _ => inr merr
   end.
 
+(* compact JSON text (encoding/json's Marshal for the values of the model: integers, ASCII strings in which only the
+   quote and the backslash need escaping, sorted keys) *)
+Definition json_str (s : list N) : list N :=
+  34%N :: flat_map (fun c => if N.eqb c 34 then [92; 34]%N else if N.eqb c 92 then [92; 92]%N else [c]) s ++ [34%N].
+Fixpoint to_json (v : jv) : list N :=
+  match v with
+  | VNull => [110; 117; 108; 108]%N
+  | VBool true => [116; 114; 117; 101]%N
+  | VBool false => [102; 97; 108; 115; 101]%N
+  | VNum z => print_Z z
+  | VStr s => json_str s
+  | VArr l => 91%N :: (fix go (l : list jv) (first : bool) : list N :=
+                         match l with
+                         | [] => []
+                         | x :: r => (if first then [] else [44%N]) ++ to_json x ++ go r false
+                         end) l true ++ [93%N]
+  | VObj l => 123%N :: (fix go (l : list (list N * jv)) (first : bool) : list N :=
+                          match l with
+                          | [] => []
+                          | (k, x) :: r => (if first then [] else [44%N]) ++ json_str k ++ 58%N :: to_json x ++ go r false
+                          end) l true ++ [125%N]
+  end.
+
 Definition c_fn0 (f : fn0) (v : jv) : jv + err0 :=
   match f with
   | F0Error => inr (EVal v)
+  | F0ToString => match v with VStr _ => inl v | _ => inl (VStr (to_json v)) end
+  | F0ToJson => inl (VStr (to_json v))
   | F0Length =>
       match v with
       | VNull => inl (VNum 0)
@@ -135,4 +188,4 @@ Definition c_fn2 (o : binop) (x l r : jv) : jv + err0 :=
   | OGe => inl (VBool (match jcmp l r with Lt => false | _ => true end))
   end.
 
-Definition cnat : natives := {| n_index := c_index; n_iter := c_iter; n_fn0 := c_fn0; n_fn2 := c_fn2 |}.
+Definition cnat : natives := {| n_index := c_index; n_iter := c_iter; n_fn0 := c_fn0; n_fn2 := c_fn2; n_slice := c_slice |}.
